@@ -2,8 +2,8 @@
 
 (M) TLC exhausts specs/auth/Auth.tla (tables with FK cascades, AuthManager.cache, RBACManager
     tokenCache/permCache, the policy as written) over every history of <=2 (thorough: <=3)
-    mutators from three initial configurations with the flush set that is sufficient:
-    CacheCoherent must hold.  Three variants with one flush removed (token permissions, direct
+    mutators from three initial configurations with the flush set of the tree as it is
+    now: CacheCoherent must hold.  Three variants with one flush removed (token permissions, direct
     DeleteOrganization, AuthManager.InvalidateCache) must fail: they document which flushes
     carry the property and that the model discriminates.
 (G) every history of 2 mutators (thorough: + seeded random histories of 6) is replayed by
